@@ -236,7 +236,7 @@ CLAIMED = {
          "are total functions. Model tied to the code by exact differentials on encoder sequences and on the decoder over encoder "
          "output / mutations / random bytes / fragmentations; ORACLES: round trip with identical tables, fragment independence"),
    note=("The round-trip half (integers, Huffman, strings, fields, header blocks, table-size schedules, table synchrony; "
-         "SetMaxDynamicTableSizeLimit schedules are decided by the round-trip oracle and the encoder differential, not by block_roundtrip_after_resize), fragment independence and the table bound are theorems about the "
+         "schedules that also move the LIMIT: block_roundtrip_after_size_and_limit in C18_Limit.lean, a theorem about the encoder WITH the D21 repair — false before it), fragment independence and the table bound are theorems about the "
          "model; 'what RFC 7541 specifies' for arbitrary bytes is the model itself (a transliteration) plus the rejection theorems "
          "(size_update_limited, eos_rejected), tied to the code by the differential. "
          "Trusted: Lean kernel + standard axioms (decide +kernel uses kernel evaluation, no extra axioms); translator; harness. The "
